@@ -64,7 +64,20 @@ def run(ctx: core.Run):
         ctx.recheck(["PsdVerif.Props.C10"])
 
 
-NOTES = []
+NOTES = [
+    "proved (Props/C10.lean): inv_init, inv_step_partial (exact guard: inserted layers detached; recursion limit not hit), "
+    "inv_history, refused_unchanged (all operations, no guard), reachable_pointers (I1), listed_once (I2), no_cycle (I3), "
+    "descendants_nodup (I4); negation of the full-strength step: inv_step_false / append_listed_elsewhere (known finding "
+    "C10/<op>/already-listed); snapshot counterexamples on Cfg.legacy: legacy_extend_self_cycle, "
+    "legacy_group_layers_refused_changed, legacy_descendants_twice; recursion_limit_after_mutation shows why the "
+    "recursion-limit hypothesis is needed",
+    "stated in DESIGN, not proved: inv_init for opened files (Inv (open rs) needs the C08 parse model; the invariant of "
+    "every initial fixture tree is evaluated on the object graph instead); the equivalence of I2 with Nodup of the "
+    "concatenation of all lists is given in the form 'one container, one position' (listed_once)",
+    "refused_unchanged speaks about the tree (lists, pointers, kinds, flags, rectangles): a refused operation may fill "
+    "bbox caches because assertion / ValueError messages format groups with repr (refused_fills_cache)",
+    "the clipping relation recomputed by _update_psd_record (repo 19d58e7, C15) is not part of this model",
+]
 
 
 def replay(ctx, data):
